@@ -324,6 +324,44 @@ def report(prop, tier, seed, t0, contracts, results, lemma_recs, validations, sp
         if bad is not None:
             o = {"contract": "bounded stand-in", "case": "bounded", "name": sd["name"], "where": sd.get("where", ""), "verdict": "failed", "backend": "native"}
             violations.append((o, path, True))
+    # thorough tier: the probe scenarios of a contract whose obligations are all discharged must pass on the tree; one that
+    # does not is an ill-formed probe (or shows a contract too weak) - reported as a checker error, never as a violation
+    probe_validation = None
+    if tier == "thorough":
+        probe_validation = {"probes_run": 0, "failing": []}
+        bad_contracts = {o["contract"] for o in obligations if o.get("contract") and o["verdict"] != "proved"} | {o["contract"] for _, o in known_hits}
+        todo = []
+        for c in contracts:
+            if not hasattr(c, "probes") or c.name in bad_contracts or prop not in c.prop:
+                continue
+            for case in c.cases:
+                try:
+                    for pc in c.probes(case) or []:
+                        todo.append((c, case, pc))
+                except Exception as e:
+                    checker_errors.append(f"probe list of {c.name} case {case!r}: {type(e).__name__}: {e}")
+
+        def run_probe(t, _n=[0]):
+            c, case, pc = t
+            _n[0] += 1
+            ppath = os.path.join(os.environ.get("PYVC_TMP", "/var/tmp"), f"pyvc.probe.{os.getpid()}.{_n[0]}.{id(t)}.json")
+            json.dump({"call": pc}, open(ppath, "w"))
+            try:
+                nat = RP.run_native(ppath)
+                return c.judge_native(I, case, pc, nat) if hasattr(c, "judge_native") else RP.evaluate_post(I, c, case, pc, nat)
+            except Exception as e:
+                return "error", f"{type(e).__name__}: {e}"
+            finally:
+                os.unlink(ppath)
+        from concurrent.futures import ThreadPoolExecutor
+        with ThreadPoolExecutor(8) as ex:
+            for (c, case, pc), (verdict, detail) in zip(todo, ex.map(run_probe, todo)):
+                probe_validation["probes_run"] += 1
+                if verdict == "violates":
+                    what = {k: v for k, v in pc.items() if k != "script"}
+                    probe_validation["failing"].append({"contract": c.name, "case": repr(case), "probe": what, "detail": str(detail)[:300]})
+                    checker_errors.append(f"probe of {c.name} case {case!r} fails on the tree although every obligation of the contract is discharged "
+                                          f"(ill-formed probe, or contract too weak): {json.dumps(what)[:200]}: {str(detail)[:200]}")
     seen_known = set()
     for k, o in known_hits:
         if k["id"] not in seen_known:
@@ -388,6 +426,8 @@ def report(prop, tier, seed, t0, contracts, results, lemma_recs, validations, sp
             "trusted_base": registry_trusted_base(spec, inlined, assumed),
             "functions_under_contract": functions,
             "by_backend": by_backend, "solver_time_s": solver_time,
+            "slowest_obligations": [{"obligation": f"{o.get('contract', 'lemma')}::{o.get('case', '')}::{o['name']}", "seconds": o.get("time", 0), "backend": o.get("backend")}
+                                    for o in sorted(obligations, key=lambda o: -o.get("time", 0))[:5]],
             "cvc5_cross_check": {k: len([o for o in obligations if o.get("cvc5_cross_check") == k]) for k in ("unsat", "sat", "unknown")},
             "paths_explored": sum(r["paths"] for r in results),
             "lemma_obligations": len(lemma_recs),
@@ -395,6 +435,7 @@ def report(prop, tier, seed, t0, contracts, results, lemma_recs, validations, sp
             "assumed_contract_validation": validations,
             "bounded_standins": spec.get("bounded", []) + standin_results,
             "self_test_on_recorded_changes": self_test,
+            "probe_validation": probe_validation,
             "not_decided": spec.get("not_decided", []),
             "known_finding_obligations": [f"{o['contract']}::{o['case']}::{o['name']}" for _, o in known_hits],
             "failed": [f"{o['contract']}::{o['case']}::{o['name']}" for o, _, _ in violations],
